@@ -143,9 +143,14 @@ theorem c18_callbacks_all_mirrored :
       pyCallbacks.any (fun p => optNameEq (structOf classMap p.owner) c.owner &&
                                 optNameEq (pairedMember T p.owner p.field) c.field)) = true := by decide +kernel
 
+/-- every `clibrebound.f.restype = T` names a function the headers declare and T mirrors its C return type -/
+def RestypesFull : Prop := pyRestypeDecls.all (declOk classMap cProtos) = true
+
 /-- every `clibrebound.f.restype = T` names a function the headers declare and T mirrors its C return type
-    (double, integer of the same width and signedness, by-value structure through the class map, typed or untyped pointer) -/
-theorem c18_restype_declarations_match : pyRestypeDecls.all (declOk classMap cProtos) = true := by decide +kernel
+    (double, integer of the same width and signedness, by-value structure through the class map, typed or untyped pointer),
+    except at the sites of known findings -/
+theorem c18_restype_declarations_match_partial :
+    pyRestypeDecls.all (fun d => declOk classMap cProtos d || memPair d.fn d.site knownCallExceptions) = true := by decide +kernel
 
 /-- no attribute other than `restype` is ever assigned on a foreign function (a misspelt `restype` is silently ignored
     by ctypes), except at the sites of known findings -/
@@ -217,6 +222,35 @@ theorem c18_composite_setters_uniform :
 example : compositeUniform [(n!"S", n!"integrator", n!"wh", [(n!"integrator", n!"'whfast'"), (n!"ri_whfast.corrector", n!"?")]),
     (n!"S", n!"integrator", n!"whckl", [(n!"integrator", n!"'whfast'"), (n!"ri_whfast.corrector", n!"17"), (n!"ri_whfast.kernel", n!"'lazy'")])] = false := by
   decide +kernel
+
+/-! ### the option properties themselves: setter / getter model -/
+
+/-- for every option property, with the normalisation its setter really applies (extracted from the AST): every name of
+    its dictionary is accepted as written, stores the dictionary value and reads back as itself; every family has a setter spec -/
+theorem c18_option_setters_roundtrip :
+    pySetterSpecs.all (fun sp => dictRoundtrips sp.lowerCase sp.strip (itemsOf sp.dict pyOptRows)) = true ∧
+    optMap.all (fun f => pySetterSpecs.any (fun sp => nameEq sp.cls f.cls && nameEq sp.prop f.prop && nameEq sp.dict f.dict)) = true := by
+  decide +kernel
+
+/-- last write wins (∀ dictionaries, ∀ histories): after any sequence of assignments, a successful assignment leaves the
+    field with the value it stores on a fresh field -/
+theorem c18_option_last_write_wins (lc : Bool) (strip : List Nat) (d : List (Name × Int)) (c0 c1 : Int)
+    (hist : List OptArg) (a : OptArg) (v : Int) (h : setOpt lc strip d a = some v) :
+    assignAll lc strip d c0 (hist ++ [a]) = v ∧ assign lc strip d c1 a = v :=
+  assignAll_last lc strip d c0 c1 hist a v h
+
+/-- set then get (∀ dictionaries with pairwise distinct values): an accepted string stores the value of its normal form
+    and the getter returns that normal form -/
+theorem c18_option_set_then_get (lc : Bool) (strip : List Nat) (d : List (Name × Int)) (s : Name) (v : Int)
+    (h : setOpt lc strip d (.str s) = some v) (hd : d.Pairwise (fun a b => a.2 ≠ b.2)) :
+    (normIn lc strip s, v) ∈ d ∧ getOpt d v = some (normIn lc strip s) :=
+  set_then_get lc strip d s v h hd
+
+/-- integers are stored as given; an unknown string leaves the field unchanged -/
+theorem c18_option_int_and_unknown (lc : Bool) (strip : List Nat) (d : List (Name × Int)) (cur v : Int) (s : Name)
+    (hs : lookupVal (normIn lc strip s) d = none) :
+    assign lc strip d cur (.int v) = v ∧ assign lc strip d cur (.str s) = cur :=
+  assign_int_and_unknown lc strip d cur v s hs
 
 /-! ### what the matcher's verdict means — for arbitrary tables -/
 
